@@ -30,6 +30,16 @@ TABLES = [
                "bracketed": ("['a', 'b']", "['a', 'b']"), "brackdot": ("{'lr': 0.1}", "{'lr': 0.1}"), "tuple": ("(1, 2)", "(1, 2)"),
                "call": ("tf.zeros(3)", "tf.zeros(3)"), "dotted": ("tf.float64", "tf.float64"), "code": ("```tf.zeros(3)```", "```tf.zeros(3)```")},
      "suffix": {"none": "", "stop": ".", "sentence": ". See the guide for details"}},
+    # values that compare equal across Python types (1 == 1.0 == True), very short prose, prose with a dash and a colon
+    {"id": "P2",
+     "prefix": {"none": "", "plain": "K", "stop": "dim.", "comma": "rows, then columns", "paren": "size (in bytes)",
+                "decimal": "about 1.0 per unit", "backtick": "see `Default` below", "dfltword": "the defaulted option - if any",
+                "twosent": "Size: small. Kept"},
+     "value": {"intPos": ("1", 1), "intNeg": ("-100", -100), "int0": ("0", 0), "float": ("1.0", 1.0), "floatNeg": ("-1.0", -1.0), "exp": ("1e3", 1000.0),
+               "boolT": ("True", True), "boolF": ("False", False), "none": ("None", None), "bare": ("sgd", "sgd"), "quoted": ('"sgd"', "sgd"),
+               "bracketed": ("[0]", "[0]"), "brackdot": ("[1.0]", "[1.0]"), "tuple": ("(0, 1)", "(0, 1)"),
+               "call": ("os.getcwd()", "os.getcwd()"), "dotted": ("os.sep", "os.sep"), "code": ("```os.getcwd()```", "```os.getcwd()```")},
+     "suffix": {"none": "", "stop": ".", "sentence": ". Optional"}},
 ]
 TYPS = {"none": None, "int": "int", "float": "float", "str": "str", "bool": "bool", "OptInt": "Optional[int]", "ListStr": "List[str]"}
 
@@ -126,7 +136,7 @@ def run(prop="C17", propose=False, replay=None):
     recs = []
     for ti, t in enumerate(TABLES if thorough else TABLES[:1] + TABLES[1:]):
         for r in rows:
-            if not thorough and ti == 1 and rnd.random() < 0.6:
+            if not thorough and ti >= 1 and rnd.random() < 0.6:
                 continue
             recs.append({"id": "p%d" % len(recs), "case": r["case"], "table": t})
     if replay:
